@@ -38,6 +38,7 @@ const (
 	DropHost                               // close every connection of this host without answering
 	RawReply                               // write RawFlags/RawOpcode/RawBody verbatim (stream id patched)
 	SilenceThenDropConn                    // alias kept distinct for the logs: no answer, then close
+	OtherID                                // to a PREPARE: PREPARED under another id than the statement's usual one
 )
 
 type Outcome struct {
@@ -132,30 +133,30 @@ type Backend struct {
 	AuthMode           int
 	AuthUser, AuthPass string
 	HostAccept         map[string]map[byte]bool // per host (IP): like AcceptVersions, for that host only
-	AcceptVersions     map[byte]bool // if non-nil, STARTUPs of other versions get "Invalid or unsupported protocol version"
+	AcceptVersions     map[byte]bool            // if non-nil, STARTUPs of other versions get "Invalid or unsupported protocol version"
 	// SysHostile: how the rows of system.local / system.peers are malformed (0: not at all).  1 local rpc_address null,
 	// 2 local data_center null, 3 local rpc_address 0.0.0.0 (system.local has no peer column to fall back on), 4 local
 	// rpc_address of three bytes, 5 system.local answered with zero rows, 6 system.local answered VOID, 7 local partitioner
 	// null, 8 every peers row with a null rpc_address, 9 peers rows with a null data_center, 10 local row repeated twice, 11 system.peers answered VOID
-	SysHostile             int
-	StrictKeyspace         bool                     // a PREPARE whose table name is unqualified on a connection without a keyspace is INVALID, as Cassandra has it
-	SysDelay               time.Duration            // answers to the system-table queries are written after this delay
-	SlowStartupVersion     byte                     // if non-zero only STARTUPs of this protocol version are slowed down per host
-	StartupDelay           time.Duration            // every STARTUP is answered after this delay (widens the window in which a session is being created)
-	PrepareErr             map[string][]Outcome     // per prepared-id (hex) outcomes of PREPARE attempts
-	prepAttempts           map[string]int
-	nextConn               int
-	seq                    int
-	PrepText               map[string]string   // prepared id hex -> query text
-	OnFrame                func(r *Rec)        // optional observer (called with be.mu held)
-	HostDefault            map[string]*Outcome // per-host outcome overriding scripts for data requests (nil = none)
-	Muted                  map[string]bool     // hosts that read frames but never answer anything
-	HoldOptions            bool                // while set, OPTIONS (heartbeat) answers of started connections are withheld
-	heldOptions            []func()            // the withheld answers, in arrival order
-	HostPrepareErr         map[string]*Outcome // per-host outcome of every PREPARE reaching that host (nil = accept)
-	FailSystem             int                 // the next FailSystem system-table queries are answered with SERVER_ERROR
-	UnpreparedWarn         bool                // attach a warning to UNPREPARED answers (v4+)
-	StrictVersion          bool                // answer PROTOCOL_ERROR to frames whose version differs from the connection's STARTUP
+	SysHostile         int
+	StrictKeyspace     bool                 // a PREPARE whose table name is unqualified on a connection without a keyspace is INVALID, as Cassandra has it
+	SysDelay           time.Duration        // answers to the system-table queries are written after this delay
+	SlowStartupVersion byte                 // if non-zero only STARTUPs of this protocol version are slowed down per host
+	StartupDelay       time.Duration        // every STARTUP is answered after this delay (widens the window in which a session is being created)
+	PrepareErr         map[string][]Outcome // per prepared-id (hex) outcomes of PREPARE attempts
+	prepAttempts       map[string]int
+	nextConn           int
+	seq                int
+	PrepText           map[string]string   // prepared id hex -> query text
+	OnFrame            func(r *Rec)        // optional observer (called with be.mu held)
+	HostDefault        map[string]*Outcome // per-host outcome overriding scripts for data requests (nil = none)
+	Muted              map[string]bool     // hosts that read frames but never answer anything
+	HoldOptions        bool                // while set, OPTIONS (heartbeat) answers of started connections are withheld
+	heldOptions        []func()            // the withheld answers, in arrival order
+	HostPrepareErr     map[string]*Outcome // per-host outcome of every PREPARE reaching that host (nil = accept)
+	FailSystem         int                 // the next FailSystem system-table queries are answered with SERVER_ERROR
+	UnpreparedWarn     bool                // attach a warning to UNPREPARED answers (v4+)
+	StrictVersion      bool                // answer PROTOCOL_ERROR to frames whose version differs from the connection's STARTUP
 }
 
 var tokRe = regexp.MustCompile(`tok:([A-Za-z0-9_]+)`)
@@ -1087,6 +1088,20 @@ func (c *Conn) handle(hdr, body, raw []byte) bool {
 		c.logRec(rec)
 		if out == nil && be.StrictKeyspace && c.keyspace == "" && msg.Keyspace == "" && unqualifiedRe.MatchString(msg.Query) {
 			out = &Outcome{Kind: ErrMsg, Msg: &message.Invalid{ErrorMessage: "No keyspace has been specified. USE a keyspace, or explicitly specify keyspace.tablename"}}
+		}
+		if out != nil && out.Kind == OtherID {
+			other := md5.Sum([]byte(msg.Query + "\x00other"))
+			c.host.mu.Lock()
+			c.host.Prepared[hex.EncodeToString(other[:])] = true
+			c.host.mu.Unlock()
+			be.mu.Unlock()
+			c.sendMsg(stream, &message.PreparedResult{
+				PreparedQueryId:   other[:],
+				ResultMetadataId:  other[:],
+				VariablesMetadata: &message.VariablesMetadata{},
+				ResultMetadata:    &message.RowsMetadata{ColumnCount: 0},
+			})
+			return true
 		}
 		if out == nil || out.Kind == OkRows || out.Kind == OkVoid {
 			c.host.mu.Lock()
